@@ -31,9 +31,9 @@ Theorem C31_range_certificate_exact_sound :
   forall (ge : geom) (w : vec) (certs : list rcert), range_okb2 ge w certs = true -> range_ok ge.
 Proof. exact range_okb2_sound. Qed.
 
-(* PARTIAL / REFUTED: without the hypothesis the statement is false -- the box
-   round(cutoff/|a_i|)+1 of makeclusters misses a pair within the cutoff (hexagonal cell, two
-   atoms, cutoff 6.4975 a).  The witness is replayed on the implementation by harness/c31.py. *)
+(* REFUTED without the hypothesis: the box round(cutoff/|a_i|)+1 (BoxOld) that makeclusters used
+   before the fix b4d0a84 misses a pair within the cutoff (hexagonal cell, two atoms, cutoff
+   6.4975 a).  The witness is replayed on the implementation on every run by harness/c31.py. *)
 Theorem C31_makeclusters_complete_refuted :
   exists (ge : geom) (cl : clus), clique ge cl /\ length cl = 2%nat /\ ~ In (canon cl) (enumerate ge 2) /\ ~ range_ok ge.
 Proof. exact makeclusters_box_refuted. Qed.
